@@ -842,6 +842,8 @@ func ToEntry(n Node) (e *Entry) {
 					se := *ToEntry(a.Module)
 					se.Exts, se.Extra = nil, nil
 					e.merge(a.Module.Prefix, nil, &se)
+					// Its identities are identities of the module.
+					e.Identities = append(e.Identities, se.Identities...)
 				case ms.ParseOptions.IgnoreSubmoduleCircularDependencies:
 					continue
 				default:
@@ -907,7 +909,10 @@ func ToEntry(n Node) (e *Entry) {
 			}
 		case "identity":
 			if i := fv.Interface().([]*Identity); i != nil {
-				e.Identities = i
+				// The module's own identities first; those of its
+				// submodules have been taken over already (the
+				// fields are visited last to first).
+				e.Identities = append(i[:len(i):len(i)], e.Identities...)
 			}
 		case "uses":
 			for _, a := range fv.Interface().([]*Uses) {
